@@ -95,10 +95,34 @@ def run_legacy(c):
             "nontrivial": n_ok > 0, "observed": {"files": len(files)}}
 
 
+def run_dqm_big(c):
+    """a DQM whose VARS section (labels) is larger than the 64 KiB window in which zipfile looks for the
+       end-of-central-directory record of the .npz member that precedes it"""
+    m = dimod.DiscreteQuadraticModel()
+    for i in range(c["n"]):
+        m.add_variable(2, label=('v' * c["label_len"]) + '%06d' % i)
+    m.set_linear_case(('v' * c["label_len"]) + '%06d' % 3, 1, 2.5)
+    data = m.to_file().read()
+    tail = len(data) - data.rindex(b'VARS')
+    fails = []
+    try:
+        m2 = load_as('dqm', data, 'bytes')
+        d = diff_state(state_of(m), state_of(m2))
+        if d:
+            fails.append("round trip changed the model: " + d)
+    except Exception as e:
+        fails.append(f"from_file raised {type(e).__name__}: {e} (labels section of {tail} bytes after the .npz data)")
+    return {"coq": None, "py_fail": "; ".join(fails) if fails else None,
+            "features": {"kind": "dqm_big", "dqm_labels_over_64k": tail > 65535}, "nontrivial": True,
+            "observed": {"len": len(data), "vars_section": tail}}
+
+
 def run_case(c):
     kind = c["kind"]
     if kind == 'legacy_all':
         return run_legacy(c)
+    if kind == 'dqm_big':
+        return run_dqm_big(c)
     feats = {"kind": kind, "how": c.get("how")}
     kw = {} if c.get("spool") is None else {"spool_size": c["spool"]}
     fails = []
@@ -144,6 +168,8 @@ def run_case(c):
         feats.update(dtype=c["dtype"])
         if all(G.is_modelled_label(v) for v in m.variables):
             coq = f"(CQm {G.qm_file_term(m)} {cbytes(data)})"
+            m_loaded = load_as('qm', data, 'bytes')
+            extra = [f"(CAdj {G.full_adj_term(m_loaded)} {G.neig_term(m)})"]
         observed = {"len": len(data)}
         nontrivial = m.num_variables > 0
     elif kind == 'cqm':
